@@ -627,6 +627,23 @@ FIXED.append(
 )
 
 
+FIXED.append(
+    {  # recursion that closes only through a ring of three categories: Num -> Len -> Seq -> Where -> Cond -> Positive -> Num
+        "name": "fx_ring",
+        "abstracts": [{"name": "Num", "parent": None, "style": "abc"}, {"name": "Seq", "parent": None, "style": "abc"}, {"name": "Cond", "parent": None, "style": "decorator"}],
+        "prods": [
+            {"name": "Lit", "parent": "Num", "fields": [["v", ["ann", ["int"], ["IntRange", 0, 9]]]]},
+            {"name": "Len", "parent": "Num", "fields": [["s", ["ref", "Seq"]]]},
+            {"name": "Empty", "parent": "Seq", "fields": []},
+            {"name": "Where", "parent": "Seq", "fields": [["s", ["ref", "Seq"]], ["c", ["ref", "Cond"]]]},
+            {"name": "Yes", "parent": "Cond", "fields": []},
+            {"name": "Positive", "parent": "Cond", "fields": [["n", ["ref", "Num"]]]},
+        ],
+        "start": "Num",
+    }
+)
+
+
 def family(seed: int, n: int, profile="general", with_fixed=True):
     """Yields n descriptors (fixed members first)."""
     out = []
